@@ -314,7 +314,7 @@ def run(ctx):
         def opts_fn(i, r):
             return jsgen.Opts(clean=True, unicode_idents=(i % 4 == 0), string_continuations=(i % 3 == 0),
                               allow_with=False)
-        progs = work.Programs(ctx, ctx.pick(160, 3500), opts_fn=opts_fn)
+        progs = work.Programs(ctx, ctx.per_shard(160, 3500), opts_fn=opts_fn)
         recent = []
         for i, (text, meta) in enumerate(progs):
             check_single(ctx, synth, text, i % 3 == 1 or meta['layout'] == 'random_comments', meta['origin'])
